@@ -5,6 +5,7 @@ import (
 	"go/types"
 	"strconv"
 	"strings"
+	"unicode"
 
 	"golang.org/x/tools/go/ssa"
 
@@ -523,9 +524,48 @@ func (ex *Exec) caseMapSlow(o []value, upper bool) value {
 			i++
 			continue
 		}
-		ex.inconclusive("case mapping of a symbolic non-ASCII rune (outside the stated bound)")
+		// a symbolic non-ASCII rune: exact mapping from unicode.CaseRanges as
+		// an ite chain, re-encoded (the encoded length may change: fork)
+		m := ex.caseRune(r.(*sym.Term), upper)
+		out = append(out, ex.strOctets(ex.runeToString(m))...)
+		i += w
 	}
 	return mkStr(out)
+}
+
+// caseRune maps a symbolic rune (known to be >= 0x80 and valid) through
+// unicode.ToUpper / ToLower: the first CaseRange containing it decides, as in
+// unicode.to().
+func (ex *Exec) caseRune(r *sym.Term, upper bool) value {
+	c := ex.ctx
+	which := unicode.LowerCase
+	if upper {
+		which = unicode.UpperCase
+	}
+	bv := func(v int64) *sym.Term { return c.BV(uint64(uint32(int32(v))), 32) }
+	res := r
+	crs := unicode.CaseRanges
+	for i := len(crs) - 1; i >= 0; i-- {
+		cr := crs[i]
+		if cr.Hi < 0x80 {
+			continue
+		}
+		delta := cr.Delta[which]
+		var mapped *sym.Term
+		if delta > unicode.MaxRune {
+			// alternating Upper/Lower sequence
+			off := c.Bin(sym.OpSub, r, bv(int64(cr.Lo)))
+			cleared := c.Bin(sym.OpBAnd, off, c.BNot(bv(1)))
+			mapped = c.Bin(sym.OpAdd, bv(int64(cr.Lo)), c.Bin(sym.OpBOr, cleared, bv(int64(which&1))))
+		} else if delta == 0 {
+			mapped = r
+		} else {
+			mapped = c.Bin(sym.OpAdd, r, bv(int64(delta)))
+		}
+		in := c.And(c.Cmp(sym.OpUle, bv(int64(cr.Lo)), r), c.Cmp(sym.OpUle, r, bv(int64(cr.Hi))))
+		res = c.Ite(in, mapped, res)
+	}
+	return norm(res)
 }
 
 func (ex *Exec) nondetOctets(maxv value) []value {
